@@ -118,6 +118,19 @@ Fixpoint detach_all (fuel : nat) (st : state) (container : val) (items : list va
     Ok (x' :: tl') s2
   end.
 
+(* Number.ExecMethod, 自增 / 自减 only, and only for a receiver that is a value of its own (a literal, the result of an
+   operator): the implementation updates the Number in place and hands it back, which for such a receiver is the same as
+   handing back the sum.  (Numbers have no identity in this model: in-place updates of numbers that are held elsewhere
+   are outside it, see DESIGN.md.) *)
+Definition num_method (st : state) (b : Z) (m : name) (args : list val) : res val :=
+  if (m =? M_INC) || (m =? M_DEC) then
+    match args with
+    | [VNum d] => Ok (VNum (if m =? M_INC then fadd b d else fsub b d)) st
+    | [_] => Er (ERun E_PARAMTYPE) st
+    | _ => Er (ERun E_EXACT) st
+    end
+  else Er (ERun E_NOMETHOD) st.
+
 (* Array.ExecMethod *)
 Definition list_method (fuel : nat) (st : state) (l : nat) (items : list val) (m : name) (args : list val) : res val :=
   if m =? M_APPEND then
@@ -868,6 +881,9 @@ Section Stmt.
       | Some (CDict kvs) => let! (v, s3) := dict_method k s2 l kvs m args in Ok v (pop_frame s3)
       | _ => Crash UNMODELLED
       end
+    | VNum b =>
+      let s2 := push_frame st 4 (Some root) in
+      let! (v, s3) := num_method s2 b m args in Ok v (pop_frame s3)
     | VNull | VBool _ | VFunc _ | VClass _ | VExc _ | VNative _ => Er (ERun E_NOMETHOD) (push_frame st 4 (Some root))
     | _ => Crash UNMODELLED
     end.
